@@ -3,7 +3,7 @@ optionally THOROUGH (same shape; package-wide generic forms), EXPLANATION and AS
 import importlib
 
 CLAIMED = ["C01", "C02", "C03", "C04", "C05", "C06", "C07", "C08", "C09", "C10", "C11",
-           "C13", "C14", "C16", "C17", "C18", "C19", "C20"]
+           "C13", "C14", "C15", "C16", "C17", "C18", "C19", "C20"]
 
 
 def load(prop: str):
